@@ -1007,6 +1007,7 @@ func callBuiltin(caller *frame, callpos token.Pos, fn *ssa.Builtin, args []value
 		if len(args) == 1 {
 			return args[0]
 		}
+		caller.i.noteAppend(args[0].([]value))
 		if isStr(args[1]) {
 			// append([]byte, ...string) []byte
 			arg0 := args[0].([]value)
@@ -1027,6 +1028,9 @@ func callBuiltin(caller *frame, callpos token.Pos, fn *ssa.Builtin, args []value
 		panic(unsupported("close(chan)"))
 
 	case "delete": // delete(map[K]value, K)
+		if m := args[0].(*omap); m != nil {
+			caller.i.noteMapWrite(m)
+		}
 		args[0].(*omap).delete(caller.i, args[1])
 		return nil
 
